@@ -7,7 +7,8 @@
 //        builder's emission order.  Recovered by running the same builder and the same std::sort call as _mcb_sva_trees on the
 //        same graph object, once before and once after the entry point; the two recoveries must agree (same number of
 //        candidates, same sources, same arrangement), otherwise the case fails.
-//   B <D|I|L> <use_hidden> <s> <spos> <t> <tpos> <limit|-> <k signed ids> <k hidden ids> <graph>
+//   B <D|D:scale|I|L> <use_hidden> <s> <spos> <t> <tpos> <limit|-> <k signed ids> <k hidden ids> <graph>
+//        D:<scale> = double weights w*2^scale (the limit is scaled the same way; the found weight is printed in the case's integer units)
 #include "mcb_common.hpp"
 #include <parmcb/parmcb_sva_signed.hpp>
 #include <parmcb/parmcb_sva_trees.hpp>
@@ -96,23 +97,27 @@ template<class G> void run_alg(const std::string &alg, Toks &t, int scale, std::
     }
 }
 
-template<class G> void run_bidir(Toks &t, std::ostream &out) {
+static double scaled_limit(double, long long v, int scale) { return std::ldexp((double) v, scale); }
+static int scaled_limit(int, long long v, int) { return (int) v; }
+static long long scaled_limit(long long, long long v, int) { return v; }
+
+template<class G> void run_bidir(Toks &t, std::ostream &out, int scale = 0) {
     typedef typename boost::graph_traits<G>::edge_descriptor Edge;
     typedef typename boost::property_traits<typename boost::property_map<G, boost::edge_weight_t>::type>::value_type W;
     bool use_hidden = t.next_sz() != 0;
     size_t s = t.next_sz(); bool spos = t.next_sz() != 0; size_t tg = t.next_sz(); bool tpos = t.next_sz() != 0;
     std::string lim = t.next();
     auto sg = t.next_szlist(); auto hd = t.next_szlist();
-    GCase<G> c; read_graph(t, c, 0);
+    GCase<G> c; read_graph(t, c, scale);
     std::set<Edge> signed_edges, hidden;
     for (auto i : sg) signed_edges.insert(c.edges.at(i));
     for (auto i : hd) hidden.insert(c.edges.at(i));
     bool use_limit = lim != "-";
-    W limit = use_limit ? (W) std::stoll(lim) : W();
+    W limit = use_limit ? scaled_limit(W(), std::stoll(lim), scale) : W();
     auto res = parmcb::bidirectional_signed_dijkstra(c.g, boost::get(boost::edge_weight, c.g), signed_edges, hidden, use_hidden,
                                                      s, spos, tg, tpos, use_limit, limit);
     if (!std::get<2>(res)) { out << "NF"; return; }
-    out << "F " << exact_weight(std::get<1>(res), 0) << " " << std::get<0>(res).size();
+    out << "F " << exact_weight(std::get<1>(res), scale) << " " << std::get<0>(res).size();
     std::vector<size_t> ids; for (auto &e : std::get<0>(res)) ids.push_back(c.id(e));
     std::sort(ids.begin(), ids.end());
     for (auto i : ids) out << " " << i;
@@ -126,7 +131,8 @@ int main() {
             if (ty == "D") run_alg<DGraph>(alg, t, scale, out); else if (ty == "L") run_alg<LGraph>(alg, t, 0, out); else run_alg<IGraph>(alg, t, 0, out);
         } else if (kind == "B") {
             std::string ty = t.next();
-            if (ty == "D") run_bidir<DGraph>(t, out); else if (ty == "L") run_bidir<LGraph>(t, out); else run_bidir<IGraph>(t, out);
+            if (ty.compare(0, 2, "D:") == 0) run_bidir<DGraph>(t, out, std::stoi(ty.substr(2)));
+            else if (ty == "D") run_bidir<DGraph>(t, out); else if (ty == "L") run_bidir<LGraph>(t, out); else run_bidir<IGraph>(t, out);
         } else throw std::runtime_error("bad kind");
     });
 }
